@@ -263,6 +263,8 @@ impl VfPathExt for std::path::Path {
 // string itself (std's impls `f.pad(self)` without width / precision flags, which `{}` does not set).
 pub struct VfStdout {
     pub log: Ghost<Seq<char>>,
+    // bytes written by --raw (write_raw_output); text writes say nothing about it and vice versa
+    pub raw: Ghost<Seq<u8>>,
 }
 
 impl VfStdout {
@@ -452,6 +454,17 @@ pub mod blake3 {
         pub uninterp spec fn id(&self) -> int;
 
         pub uninterp spec fn pos(&self) -> int;
+
+        // std::io::Read::take (ASSUMED): a reader over the next `limit` bytes of the same stream
+        #[verifier::external_body]
+        pub fn take(self, limit: u64) -> (t: crate::VfTake)
+            ensures
+                t.id() == self.id(),
+                t.pos() == self.pos(),
+                t.limit() == limit,
+        {
+            unimplemented!()
+        }
 
         #[verifier::external_body]
         pub fn set_position(&mut self, position: u64)
@@ -789,6 +802,60 @@ pub fn vf_vec_prefix(v: &Vec<u8>, n: usize) -> (r: &[u8])
         n <= v@.len(),
     ensures
         r@ == v@.take(n as int),
+{
+    unimplemented!()
+}
+
+// ---- --raw (C12): `output.take(len)` copied to the locked stdout -----------------------------------------------
+#[verifier::external_body]
+pub struct VfTake {
+    _p: u8,
+}
+
+impl VfTake {
+    pub uninterp spec fn id(&self) -> int;
+
+    pub uninterp spec fn pos(&self) -> int;
+
+    pub uninterp spec fn limit(&self) -> int;
+}
+
+#[verifier::external_body]
+pub struct VfStdoutHandle {
+    _p: u8,
+}
+
+#[verifier::external_body]
+pub struct VfStdoutLock {
+    _p: u8,
+}
+
+#[verifier::external_body]
+pub fn vf_stdout_handle() -> VfStdoutHandle {
+    unimplemented!()
+}
+
+impl VfStdoutHandle {
+    #[verifier::external_body]
+    pub fn lock(&self) -> VfStdoutLock {
+        unimplemented!()
+    }
+}
+
+// `std::io::copy(&mut take, &mut stdout_lock)?` (ASSUMED: io::copy reads the reader to its end - here the `limit` bytes
+// of the stream from `pos` on, C03 - and writes exactly those bytes): the raw stdout log grows by them
+#[verifier::external_body]
+pub fn vf_copy_take_to_stdout(out: &mut VfStdout, r: &mut VfTake, w: &mut VfStdoutLock) -> (res: VfResult<u64>)
+    ensures
+        final(out)@ == old(out)@,
+        match res {
+            Ok(n) => n == old(r).limit() && final(out).raw@ == old(out).raw@ + sp_xof_bytes(
+                old(r).id(),
+                old(r).pos(),
+                old(r).limit(),
+            ),
+            Err(_) => sp_env_failed(),
+        },
 {
     unimplemented!()
 }
